@@ -248,6 +248,20 @@ class C15(Property):
                         pt.append(g[0] + rng.choice(FRACS) * (g[1] - g[0]))
                     elif m == 'hi':
                         pt.append(g[-1])
+                    elif m in ('far_up', 'far_down', 'node_up', 'node_down', 'mid'):
+                        # interior cells / nodes far from the end just visited: the upper half after a
+                        # lookup below the table, the lower half after one above it
+                        n = len(g)
+                        if m in ('far_up', 'node_up'):
+                            i = rng.randrange(max(1, n // 2), n - 1)
+                        elif m in ('far_down', 'node_down'):
+                            i = rng.randrange(0, max(1, (n - 1) // 2))
+                        else:
+                            i = rng.randrange(n - 1)
+                        if m.startswith('node'):
+                            pt.append(g[i] if m == 'node_down' else g[min(i + 1, n - 2)])
+                        else:
+                            pt.append(g[i] + rng.choice(FRACS) * (g[i + 1] - g[i]))
                     else:
                         pt.append(g[0])
                 batches.append([rats(pt)])
@@ -298,6 +312,21 @@ class C15(Property):
                 yield self.gen_case(rng, {'method': m, 'ndim': int(m[0]) if is_fixed(m) else 1,
                                           'api': 'interpnd', 'extrapolate': True, 'walk': walk,
                                           'table': 'random'})
+            # single-point lookups outside the table followed immediately by a lookup in a far interior
+            # cell / on a far node of the same object (the cached bracket index of the outside lookup
+            # must not decide the next cell), every fixed method, both consumers
+            for m in FIXED[1] + FIXED[2] + FIXED[3] + GENERAL:
+                for api in ('interpnd', 'mmsc'):
+                    if api == 'mmsc' and not (m in FIXED[1] or rng.random() < 0.3):
+                        continue
+                    walk = []
+                    for _ in range(3):
+                        walk += rng.choice([['below', 'far_up'], ['below', 'node_up'], ['above', 'far_down'],
+                                            ['above', 'node_down'], ['below', 'mid'], ['above', 'mid']])
+                    nd = int(m[0]) if is_fixed(m) else rng.choice([1, 2])
+                    yield self.gen_case(rng, {'method': m, 'ndim': nd, 'npts': 7 if nd < 3 else 5,
+                                              'api': api, 'extrapolate': True, 'walk': walk,
+                                              'table': 'random', 'mmsc_size': 1})
             # vectorized call followed by a single-point call on a fixed-dimension table
             m = rng.choice(FIXED[1] + FIXED[2] + FIXED[3])
             yield self.gen_case(rng, {'method': m, 'ndim': int(m[0]), 'api': 'interpnd',
